@@ -55,9 +55,17 @@ PARTIAL = ('Proved in Lean: the whole call trace of the model equals the documen
            'HTTPError / HTTPStatus / handled application errors into one "raise" (their different status codes are judged by the oracle and by C04).')
 JOBS = {'quick': 12, 'thorough': 16}
 
-RAISES = {'http': 403, 'status': 202, 'app_h': 418, 'app_d': 500, 'app_hh': 409, 'app_hs': 299, 'app_he': None}
+RAISES = {'http': 403, 'status': 202, 'app_h': 418, 'app_d': 500, 'app_hh': 409, 'app_hs': 299, 'app_he': None, 'base': None}
 CUSTOM = ('app_h', 'app_hh', 'app_hs', 'app_he')        # a custom (generated) error handler runs for these
-FAULTS = ['complete', 'http', 'status', 'app_h', 'app_d', 'app_hh', 'app_hs', 'app_he']
+ESCAPING = ('app_he', 'base')                           # the exception leaves __call__: handler raised a plain exception / no handler at all
+FAULTS = ['complete', 'http', 'status', 'app_h', 'app_d', 'app_hh', 'app_hs', 'app_he', 'base']
+LETTER = {'ret': 'r', 'complete': 'c', None: '-', 'http': 'e', 'status': 's', 'app_h': 'h', 'app_d': 'd', 'app_hh': 'H', 'app_hs': 'S',
+          'app_he': 'P', 'base': 'n'}                   # the action alphabet of Pe.run (pldriver `runx`)
+
+
+class _BaseOnly(BaseException):
+    """raised by the 'base' action: derives from BaseException only, so no error handler exists for it (not even falcon's
+    default one for Exception) and `except Exception` in __call__ does not catch it."""
 METHS = ('req', 'rsrc', 'resp')
 
 
@@ -80,9 +88,9 @@ def spec(case):
         elif a in RAISES:
             st['raised'] = True
             if a in CUSTOM:
-                tr.append('h:' + a)             # the handler registered for that error is invoked right away
-            if a == 'app_he':
-                raise _Escape()                 # ... and what it raises (not HTTPError/HTTPStatus) goes to the server
+                tr.append('h:' + a + '@' + label)   # the handler registered for that error is invoked right away, with that error
+            if a in ESCAPING:
+                raise _Escape()                 # what the handler raises (not HTTPError/HTTPStatus) / an error without handler goes to the server
             st['status'] = RAISES[a]
             return True
         return False
@@ -159,11 +167,13 @@ def _build(case, trace):
             raise falcon.HTTPForbidden()
         elif a == 'status':
             raise falcon.HTTPStatus(202)
+        elif a == 'base':
+            raise _BaseOnly(label)
         elif a in excs:
             raise excs[a](label)
 
-    def handler_body(name, resp):
-        trace.append('h:' + name)
+    def handler_body(name, resp, ex):
+        trace.append('h:' + name + '@' + str(ex.args[0]))
         if name == 'app_h':
             resp.status = 418
         elif name == 'app_hh':
@@ -176,10 +186,10 @@ def _build(case, trace):
     def mkhandler(name):
         if asgi:
             async def h(req, resp, ex, params):
-                handler_body(name, resp)
+                handler_body(name, resp, ex)
         else:
             def h(req, resp, ex, params):
-                handler_body(name, resp)
+                handler_body(name, resp, ex)
         return h
 
     def component(i, c):
@@ -265,7 +275,7 @@ def _model_line(case):
     def a1(a):
         return m.get(a, 'x')
     acts = [c[k] for c in case['comps'] for k in METHS] + [case['responder']] + [a for _, a in case['hooks']]
-    if 'app_he' in acts:
+    if any(a in ESCAPING for a in acts):
         return None
     # the hook-wrapped responder is one responder for Pl.run: it raises if any of its parts raises first, else completes if any part does
     comp = 'r'
@@ -283,6 +293,44 @@ def _model_line(case):
         comp = a1(case['responder'])
     t = {'route': 'r', 'nomethod': 'm', 'sink': 's', 'none': 'n'}[case['target']]
     return f"run {int(case['independent'])} {t} {comp} " + ' '.join(','.join(a1(c[k]) for k in METHS) for c in case['comps'])
+
+
+def _modelx_line(case):
+    """The case as input of Pe.run (every case is covered): one letter of LETTER per call site.  The hook-wrapped responder is
+    one responder: it does what its first raising part does, else completes if any part does, else returns."""
+    comp = case['responder']
+    if case['target'] == 'route' and case['hooks']:
+        befores = [a for kind, a in case['hooks'] if kind == 'before']
+        afters = [a for kind, a in case['hooks'] if kind == 'after']
+        comp = 'ret'
+        for a in befores + [case['responder']] + afters[::-1]:
+            if a in RAISES:
+                comp = a
+                break
+            if a == 'complete':
+                comp = 'complete'
+    t = {'route': 'r', 'nomethod': 'm', 'sink': 's', 'none': 'n'}[case['target']]
+    return f"runx {int(case['independent'])} {t} {LETTER[comp]} " + ' '.join(','.join(LETTER[c[k]] for k in METHS) for c in case['comps'])
+
+
+def _modelx_view(trace, r):
+    """The real observation in the reply format of `runx`: calls and custom-handler invocations (with the site whose error they got),
+    hooks+responder collapsed to `responder`; then the outcome: the status the server saw, or `escaped`."""
+    def site(lbl):
+        p = lbl.split(':')
+        return 'responder' if p[0] in ('bef', 'aft', 'responder') else p[0] + ':' + p[1]
+    out = []
+    for t in trace:
+        if t.startswith('h:'):
+            name, _, at = t[2:].partition('@')
+            out.append(f'h:{LETTER[name]}@{site(at)}')
+            continue
+        if t.startswith('bef:') or t.startswith('aft:'):
+            t = 'responder'
+        if t == 'responder' and out and out[-1] == 'responder':
+            continue
+        out.append(t)
+    return ' '.join(out) + ' | ' + ('escaped' if r.escaped else f'responded:{r.status}')
 
 
 def _model_view(trace):
@@ -307,16 +355,21 @@ def _hook_line(case):
 ORACLE = 'call trace (incl. process_response arguments and error-handler calls), final status and escape = documented stack discipline'
 
 
-def _execute(ctx, sess, hsess, case, via_testing=False):
-    from lib_appcall import call_wsgi, call_asgi, call_via_testing
+def _execute(ctx, sess, hsess, case, via_testing=False, xsess=None):
+    from lib_appcall import call_wsgi, call_asgi, call_via_testing, Result
     trace = []
     app = _build(case, trace)
-    if via_testing:
-        r = call_via_testing(app)
-    elif case['stack'] == 'asgi':
-        r = call_asgi(app)
-    else:
-        r = call_wsgi(app)
+    if via_testing and 'base' in [c[k] for c in case['comps'] for k in METHS] + [case['responder']] + [a for _, a in case['hooks']]:
+        via_testing = False                 # the testing client's own loop/validator is not made for BaseException-only raises
+    try:
+        if via_testing:
+            r = call_via_testing(app)
+        elif case['stack'] == 'asgi':
+            r = call_asgi(app)
+        else:
+            r = call_wsgi(app)
+    except _BaseOnly as e:                  # lib_appcall reports Exception-derived escapes only
+        r = Result(escaped=e)
     exp_tr, exp_status, exp_esc = spec(case)
     what = None
     if trace != exp_tr:
@@ -325,11 +378,16 @@ def _execute(ctx, sess, hsess, case, via_testing=False):
         what = f'exception {"escaped to the server: %r" % (r.escaped,) if r.escaped else "did not reach the server although an error handler raised it"}'
     elif not exp_esc and r.status != exp_status:
         what = f'final status {r.status}, expected {exp_status}'
+    elif exp_esc and r.events:
+        what = f'the exception reached the server, yet events were sent before: {r.events}'
     ctx.oracle(ORACLE, what is None, what, dict(case, via_testing=via_testing))
     line = _model_line(case)
     if line is not None:
         sess.case({'case': case})
         sess.op(line, _model_view(trace))
+    if xsess is not None:
+        xsess.case({'case': case, 'via_testing': via_testing})
+        xsess.op(_modelx_line(case), _modelx_view(trace, r))
     if case['hooks'] and case['target'] == 'route' and not exp_esc:
         # the hook part of the trace against Hk.wrap (only when the wrapped responder was reached)
         part = [t for t in trace if t.startswith(('bef:', 'aft:')) or t == 'responder']
@@ -346,7 +404,7 @@ def _execute(ctx, sess, hsess, case, via_testing=False):
     if case['hooks']:
         ctx.count(f"hooks_{len(case['hooks'])}")
     if exp_esc:
-        ctx.count('handler_raised_plain_exception')
+        ctx.count('escaped_no_handler' if trace and not trace[-1].startswith('h:') else 'escaped_handler_raised_plain_exception')
 
 
 def _shapes(n):
@@ -428,15 +486,17 @@ def _requests(ctx):
     rnd = ctx.rng
     sess = ctx.session('App.__call__ call trace (WSGI+ASGI) = Pl.run', 'pldriver')
     hsess = ctx.session('falcon.before/after wrapped responder = Hk.wrap', 'hkdriver')
+    xsess = ctx.session('App.__call__ + _handle_exception: calls, error-handler invocations (with site), final status / escape (WSGI+ASGI) = Pe.run', 'pldriver')
     if not ctx.searching:
         for nf, case in _enumerated(ctx, *((3, 1) if ctx.quick else (4, 2))):
-            _execute(ctx, sess, hsess, case)
+            _execute(ctx, sess, hsess, case, xsess=xsess)
             ctx.count(f'enumerated_{nf}_fault')
     for j in range(ctx.n(16000, 100000)):
         case = _random_case(rnd)
-        _execute(ctx, sess, hsess, case, via_testing=(j % 16 == 0))
+        _execute(ctx, sess, hsess, case, via_testing=(j % 16 == 0), xsess=xsess)
         ctx.count('random')
     sess.finish()
+    xsess.finish()
     hsess.finish()
 
 
